@@ -411,6 +411,9 @@ func roundtripReplay(args []string) {
 				dn["zz-nested"] = map[string]interface{}{"nickname": nil, "list": []interface{}{"a", nil, "b"}, "deep": map[string]interface{}{"x": nil}}
 				dn["verificationMethod"] = []interface{}{env.keyJSON(CEnt{ID: 8, Ver: 1}), map[string]interface{}{"id": "vm1"}}
 				dn["authentication"] = []interface{}{"k1"}
+				// ... and strings whose TEXT looks like JSON / HTML escapes, next to the characters themselves
+				dn["zz-text"] = map[string]interface{}{"snippet": "AT\\u0026T \\u003cb\\u003e \\n \\\\ \\\" \\", "plain": "AT&T <b> \u2028\u2029 \x01 \U0001F600 \" \\",
+					"list": []interface{}{"\\u003e", "&amp;", "\\"}}
 				// (no name that BEGINS with publicKey / service: the json patch validator refuses those by prefix)
 			}
 
@@ -425,6 +428,11 @@ func roundtripReplay(args []string) {
 			for _, p := range pn {
 				if verr := patchvalidator.Validate(p); verr != nil {
 					fail("derived-patch-invalid", "document with a null member: "+verr.Error(), nil, p)
+					return
+				}
+
+				if msg := checkPatchCodec(p); msg != "" {
+					fail("patch-codec", "document with further members: "+msg, nil, p)
 					return
 				}
 			}
